@@ -204,9 +204,10 @@ def erase(ty):
 class Ctx:
     def __init__(self, tr, fileidx, owner, rty, mode, forced_opt):
         self.tr, self.ix, self.owner, self.rty, self.mode, self.opt = tr, fileidx, owner, rty, mode, forced_opt
-        self.used = set()
+        self.used = set(["TABLE", "TABLE16"])
         self.rets = []
         self.setter = False
+        self.ext_used = set()
 
     def fresh(self, base):
         base = "".join(ch if ch.isalnum() or ch == "_" else "_" for ch in base)
@@ -230,6 +231,10 @@ class Translator:
         self.stack = []
         self.forced_res = forced_res or {}    # coqname -> True: keep the res type of the pinned revision
         self.used_enums = {}
+        self.reserved = {}     # coq names of the targets -> (owner, fn) when the target IS that whole function
+        # tables generated at build time (build.rs -> crc32_table.rs): parameters of the functions that use them;
+        # their dimensions are part of their Rust types ([u32; 256], [[u32; 256]; 16])
+        self.ext_tables = {"TABLE": ([256], "u32"), "TABLE16": ([16, 256], "u32")}
 
     def all_idx(self, first):
         return [first] + [ix for ix in self.files.values() if ix is not first]
@@ -238,8 +243,8 @@ class Translator:
     def find_fn(self, ix, owner, name):
         if (owner, name) in ix.fns:
             return ix, ix.fns[(owner, name)]
-        for other in self.files.values():
-            if (owner, name) in other.fns and owner is not None:
+        for f, other in self.files.items():
+            if f in ("src/raw/mod.rs", "src/bytes.rs") and (owner, name) in other.fns and owner is not None:
                 return other, other.fns[(owner, name)]
         return None, None
 
@@ -258,7 +263,10 @@ class Translator:
             raise Untranslatable("recursion through " + name)
         self.stack.append(key)
         try:
-            r = self.translate_fn(fix, item, "src_fn_%s%s" % ((owner + "_") if owner else "", name))
+            cn = "src_fn_%s%s" % ((owner + "_") if owner else "", name)
+            if cn in self.reserved and self.reserved[cn] != (owner, name):
+                cn += "__fn"
+            r = self.translate_fn(fix, item, cn)
         except Untranslatable as ex:
             self.memo[key] = ex
             raise
@@ -276,11 +284,26 @@ class Translator:
         info.coqname = coqname
         idxs = self.all_idx(ix)
         gens = list(getattr(item, "generics", []))
-        rty = self.rtype(item.ret, ix, gens) if item.ret else ("unit",)
+        if mode[0] == "selfpair":
+            gens = []
+        # fn-level generic parameters bounded by AsRef<[u8]> are byte strings
+        fg = getattr(item, "fn_gen", [])
+        asref = set()
+        if ("id", "AsRef") in fg:
+            from rustfun_parse import generic_names
+            asref = set(generic_names(fg))
+        try:
+            rty = self.rtype(item.ret, ix, gens) if item.ret else ("unit",)
+        except Untranslatable:
+            if mode[0] != "selfpair":
+                raise
+            rty = ("unit",)
         if rty == ("self",):
             rty = self.self_type(ix, item.owner)
         ctx = Ctx(self, ix, item.owner, erase(rty), mode, opt)
         ctx.gens = gens
+        if mode[0] == "selfpair":
+            ctx.rty = ("tuple", tuple(("enum", "Bound", ()) for _ in mode[1]))
         env = {"%decl": frozenset()}
         params = []
         for g in gens:
@@ -324,15 +347,34 @@ class Translator:
                             fty = self.rtype(ft, ix, gens)
                         except Untranslatable:
                             continue
-                        if erase(fty) in INT_BITS or fty == "bool" or fty == ("bytes",):
+                        if erase(fty) in INT_BITS or fty == "bool" or fty == ("bytes",) or (mode[0] == "selfpair" and f in mode[1]):
                             g = ctx.fresh("self_" + f)
                             env["self." + f] = self.param_value(g, fty, "self." + f)
                             params.append((g, coq_type(erase(fty)), fty))
+                            if pt == "mut" and rty == ("unit",) and len(st[2]) == 1 and erase(fty) in INT_BITS:
+                                ctx.setter = "self." + f
+                                ctx.rty = erase(fty)
                 continue
             try:
                 ty = self.rtype(pt, ix, gens)
             except Untranslatable:
                 ty = ("named", "?")
+            if len(pt) == 1 and pt[0][0] == "id" and pt[0][1] in asref:
+                ty = ("bytes",)
+            ptn = [x for x in pt if x not in (("op", "&"), ("id", "mut"))]
+            if len(ptn) == 1 and ptn[0][0] == "id" and any(ptn[0][1] in x.records and len(x.records[ptn[0][1]]) > 1 for x in idxs) and pn != "_":
+                rec = [x for x in idxs if ptn[0][1] in x.records][0].records[ptn[0][1]]
+                env[pn] = V("", ("opaque",))
+                for f, ft in rec.items():
+                    try:
+                        fty = self.rtype(ft, ix, gens)
+                    except Untranslatable:
+                        continue
+                    if erase(fty) in INT_BITS or fty == "bool" or fty == ("bytes",):
+                        g = ctx.fresh(pn + "_" + f)
+                        env[pn + "." + f] = self.param_value(g, fty, pn + "." + f)
+                        params.append((g, coq_type(erase(fty)), fty))
+                continue
             if ty == ("bytes",) and params_decl is not None:
                 ty = ("slice",)              # position functions only ever use the length of the data
             if pn == "_":
@@ -387,8 +429,7 @@ class Translator:
                     env[k] = v.with_(code="%UNDECLARED:" + k)
         if rty_decl is not None:
             ctx.rty = rty_decl
-        if ctx.rty == ("unitv",):
-            pass
+        env0 = dict(env)
         stmts, tail = body
         if mode[0] == "after":
             pos = [i for i, s in enumerate(stmts) if s[0] == "let" and s[1] == mode[1]]
@@ -436,7 +477,15 @@ class Translator:
         txt = pr(comp, False) if is_pure(comp) else pr(comp, True)
         if "%UNDECLARED:" in txt:
             raise Untranslatable("uses %s, which is not among the declared parameters" % txt.split("%UNDECLARED:")[1].split()[0].rstrip(")"))
+        ext = [t for t in ("TABLE", "TABLE16") if t in ctx.ext_used]
+        info.ext = ext
+        params = [(t, "list N" if len(self.ext_tables[t][0]) == 1 else "list (list N)", ("ext", t)) for t in ext] + params
         info.params = params
+        info.keys = {}
+        for kk, vv in env0.items():
+            if isinstance(vv, V) and vv.code:
+                info.keys[vv.code] = kk
+        info.rust_params = [pn for pn, _ in parse_params(item.params)]
         info.rty = ctx.rty if not ctx.opt else ("opt", ctx.rty)
         info.comp = comp
         info.pure = is_pure(comp)
@@ -461,9 +510,13 @@ class Translator:
             return ("tuple", tuple(self.rtype(t, ix, gens) for t in parts))
         if toks[0] == ("op", "["):
             return ("bytes",)
+        while len(toks) >= 3 and toks[0][0] == "id" and toks[1] == ("op", "::") and toks[0][1] not in gens:
+            toks = toks[2:]
         k, v = toks[0]
         if k != "id":
             raise Untranslatable("type")
+        if v == "Ordering":
+            return ("ord",)
         if v in gens:
             if len(toks) >= 3 and toks[1] == ("op", "::") and toks[2] == ("id", "State"):
                 return ("coq", "src_St %s" % v)
@@ -476,6 +529,15 @@ class Translator:
         for x in idxs:
             if v in x.newtypes:
                 return ("nt", v, x.newtypes[v])
+        for x in idxs:
+            if v in x.records and len(x.records[v]) == 1:
+                (fname, ft), = x.records[v].items()
+                try:
+                    fty = parse_type(ft, idxs)
+                except Untranslatable:
+                    fty = None
+                if fty in INT_BITS:
+                    return fty
         for x in idxs:
             if v in x.tuples or v in x.enums:
                 gdef = x.generics.get(v, [])
@@ -588,6 +650,8 @@ class Translator:
             return env
         env = dict(env)
         for name, lo, hi in facts:
+            if name.startswith("%len:"):
+                name = name[5:]
             v = env.get(name)
             if isinstance(v, V) and v.lo is not None:
                 nlo, nhi = max(v.lo, lo), min(v.hi, hi)
@@ -625,6 +689,8 @@ class Translator:
             return wrap(pre, self.bind_local(name, v, env, ctx, rest, declare=True))
         if kind == "for":
             return self.for_loop(st, env, ctx, rest)
+        if kind == "while":
+            return self.while_loop(st, env, ctx, rest)
         if kind == "assign" and st[1][0] == "index":
             _, lhs, op, e = st
             if lhs[1][0] != "path" or len(lhs[1][1]) != 1 or lhs[1][1][0] not in env:
@@ -662,7 +728,7 @@ class Translator:
         if kind == "return":
             if st[1] is None:
                 if ctx.setter:
-                    v = env["self.0"]
+                    v = env[ctx.setter if isinstance(ctx.setter, str) else "self.0"]
                     ctx.rets.append(v)
                     return ("ret", v.code)
                 raise Untranslatable("return without a value")
@@ -783,6 +849,81 @@ class Translator:
                     walk(y)
         walk(blk)
         return out
+
+    def while_loop(self, st, env, ctx, rest):
+        """while X.len() >= K { ...; X = &X[k..]; }  (1 <= k): at most `length X` iterations"""
+        _, cond, blk = st
+        stmts_, tail_ = blk
+        if tail_ is not None or not stmts_:
+            raise Untranslatable("while body")
+        last = stmts_[-1]
+        ok = (last[0] == "assign" and last[2] is None and last[1][0] == "path" and len(last[1][1]) == 1 and
+              last[3][0] == "slice" and last[3][1] == last[1] and last[3][3] is None and last[3][2] is not None and
+              last[3][2][0] == "num" and last[3][2][1] >= 1)
+        if not ok:
+            raise Untranslatable("while loop that does not end with `x = &x[k..]`")
+        xname = last[1][1][0]
+        for st2 in stmts_[:-1]:
+            if st2[0] == "assign" and st2[1] == last[1]:
+                raise Untranslatable("the sliced variable is assigned twice in the loop")
+        if xname not in env or env[xname].ty != ("bytes",):
+            raise Untranslatable("while over a non-slice")
+        state = self.assigned_names(blk, env)
+        x0 = env[xname]
+        def attempt(types, for_cond):
+            e2 = dict(env)
+            e2["%decl"] = frozenset()
+            snames = []
+            for key, ty in zip(state, types):
+                g = ctx.fresh(key.replace("self.", "self"))
+                snames.append(g)
+                cur = env[key]
+                if ty == ("bytes",):
+                    e2[key] = V(g, ty, 0, cur.hi, var=key)
+                elif erase(ty) in INT_BITS:
+                    e2[key] = V(g, ty, 0, tmax(erase(ty)), var=key)
+                else:
+                    e2[key] = V(g, ty, var=key)
+            pc, c = self.expr(cond, e2, ctx, "bool")
+            if pc or c.ty != "bool":
+                raise Untranslatable("while condition may panic")
+            if for_cond:
+                return snames, c
+            e3 = self.refine(e2, c.tf)
+            def at_end(env_end):
+                vs = [env_end[key] for key in state]
+                return ("ret", "(%s)" % ", ".join(v.code for v in vs) if len(vs) > 1 else vs[0].code)
+            body = self.stmts(stmts_, None, e3, ctx, ("cont", at_end))
+            return snames, c, body, e2
+        base = [env[key].ty for key in state]
+        types = [("u64" if t == "int?" else t) for t in base]
+        cn, c = attempt(types, True)
+        sn, c2, body, e2 = attempt(types, False)
+        def pat(ns):
+            return "(%s)" % ", ".join(ns) if len(ns) > 1 else ns[0]
+        init = pat([self.coerce(env[key], t).code for key, t in zip(state, types)])
+        cfun = "(fun %s => %s)" % ("'" + pat(cn) if len(cn) > 1 else cn[0], c.code)
+        env2 = dict(env)
+        outs = []
+        neg = self.refine(e2, c2.ff)
+        for key, ty in zip(state, types):
+            g = ctx.fresh(key.replace("self.", "self"))
+            outs.append(g)
+            if ty == ("bytes",):
+                env2[key] = V(g, ty, 0, neg[key].hi if key == xname else env[key].hi, var=key)
+            elif erase(ty) in INT_BITS:
+                env2[key] = V(g, ty, 0, tmax(erase(ty)), var=key)
+            else:
+                env2[key] = V(g, ty, var=key)
+        k = rest(env2)
+        bind_out = (lambda t: ("letp", pat(outs), t, k) if len(outs) > 1 else ("let", outs[0], t, k))
+        spat = "'" + pat(sn) if len(sn) > 1 else sn[0]
+        if is_pure(body):
+            code = "(src_while (length %s) %s (fun %s => %s) %s)" % (x0.code, cfun, spat, pr(body, False, 6), init)
+            return bind_out(code)
+        code = "(src_while_res (length %s) %s (fun %s => %s) %s)" % (x0.code, cfun, spat, pr(body, True, 6), init)
+        t = ctx.fresh("t")
+        return ("bind", t, ("raw", code), bind_out(t))
 
     def for_loop(self, st, env, ctx, rest):
         _, pat, it, blk = st
@@ -937,7 +1078,7 @@ class Translator:
         if tail is not None:
             return self.tail(tail, env, ctx, k)
         if k[0] == "fnend" and ctx.setter:
-            v = env["self.0"]
+            v = env[ctx.setter if isinstance(ctx.setter, str) else "self.0"]
             ctx.rets.append(v)
             return ("ret", v.code)
         if k[0] == "fnend" and ctx.mode[0] in ("let", "arg"):
@@ -1005,6 +1146,9 @@ class Translator:
         if k[0] == "cont":
             pre, v = self.expr(e, env, ctx)
             return wrap(pre, k[1](env))
+        if ctx.mode[0] == "selfpair" and k[0] == "fnend" and e == ("path", ["self"]):
+            vs = [env["self." + f] for f in ctx.mode[1]]
+            return ("ret", "(%s)" % ", ".join(v.code for v in vs))
         # leaf value
         exp = ctx.rty if k[0] == "fnend" else k[1].get("exp")
         pre, v = self.expr(e, env, ctx, exp if not isinstance(exp, tuple) else None)
@@ -1037,10 +1181,16 @@ class Translator:
             elif p[0] == "none" and none is None:
                 none = blk
             elif p[0] in ("wild", "bind"):
+                if p[0] == "bind" and not (p[1][0].islower() or p[1][0] == "_"):
+                    raise Untranslatable("pattern %s on an option" % p[1])
+                if p[0] == "bind":
+                    raise Untranslatable("binding pattern on an option")
                 if some is None:
                     some = (None, blk)
                 if none is None:
                     none = blk
+            else:
+                raise Untranslatable("pattern %s on an option" % (p,))
         if some is None or (none is None and k[0] != "cont"):
             raise Untranslatable("option match is not exhaustive")
         ety = o.ty[1]
@@ -1069,8 +1219,17 @@ class Translator:
                 for p in pats:
                     if p[0] == "ctor" and p[1][-1] == vn and (len(p[1]) == 1 or p[1][-2] in (ename, "Self")):
                         chosen = (p, blk)
+                    elif p[0] == "ctor" and p[1][-1] not in [x[0] for x in variants]:
+                        raise Untranslatable("pattern %s on the enum %s" % ("::".join(p[1]), ename))
+                    elif p[0] == "bind" and p[1] in [x[0] for x in variants]:
+                        if p[1] == vn:
+                            chosen = (("ctor", [p[1]], []), blk)
+                    elif p[0] == "bind" and not (p[1][0].islower() or p[1][0] == "_"):
+                        raise Untranslatable("pattern %s on the enum %s" % (p[1], ename))
                     elif p[0] in ("wild", "bind"):
                         chosen = (p, blk)
+                    elif p[0] not in ("ctor",):
+                        raise Untranslatable("pattern %s on the enum %s" % (p, ename))
                     if chosen:
                         break
                 if chosen:
@@ -1107,6 +1266,19 @@ class Translator:
         pats, blk = arms[0]
         conds, facts = [], []
         for p in pats:
+            if p[0] == "bind":
+                # an identifier in pattern position: a constant of the source is a CONSTANT PATTERN; a lower-case
+                # name that is no constant is a binding; anything else cannot be given a meaning here
+                c = self.const(p[1], ctx)
+                if c is not None:
+                    p = ("lit", c.const)
+                elif not (p[1][0].islower() or p[1][0] == "_") or len(pats) > 1:
+                    raise Untranslatable("pattern %s is neither a known constant nor a binding" % p[1])
+            elif p[0] == "ctor" and not p[2]:
+                c = self.const_path(p[1], ctx)
+                if c is None:
+                    raise Untranslatable("pattern %s on an integer" % "::".join(p[1]))
+                p = ("lit", c.const)
             if p[0] in ("wild", "bind"):
                 e2 = dict(env)
                 if p[0] == "bind":
@@ -1276,7 +1448,21 @@ class Translator:
                 p2, x = self.expr(it, env, ctx)
                 pre += p2
                 vs.append(x)
-            return pre, V("(%s)" % ", ".join(v.code for v in vs), ("tuple", tuple(erase(v.ty) for v in vs)))
+            return pre, V("(%s)" % ", ".join(v.code for v in vs), ("tuple", tuple(erase(v.ty) for v in vs)), opt=("tuple", vs))
+        if k == "structlit":
+            nm = e[1][-1]
+            if nm == "Self":
+                nm = ctx.owner
+            for x in self.all_idx(ctx.ix):
+                if nm in x.records and len(x.records[nm]) == 1 and len(e[2]) == 1 and e[2][0][0] in x.records[nm]:
+                    fty = parse_type(x.records[nm][e[2][0][0]], self.all_idx(x))
+                    if fty in INT_BITS:
+                        pre, v = self.expr(e[2][0][1], env, ctx, fty)
+                        v = self.coerce(v, fty)
+                        if erase(v.ty) != fty:
+                            raise Untranslatable("field of type %s" % (v.ty,))
+                        return pre, v
+            raise Untranslatable("struct literal of %s" % nm)
         if k == "str":
             raise Untranslatable("string literal")
         raise Untranslatable("expression " + k)
@@ -1285,7 +1471,8 @@ class Translator:
         """length of a byte list value as a usize value"""
         if b.lo is not None and b.lo == b.hi:
             return num(b.lo, "usize")
-        return V("(len %s)" % b.code, "usize", b.lo if b.lo is not None else 0, b.hi if b.hi is not None else tmax("usize"))
+        return V("(len %s)" % b.code, "usize", b.lo if b.lo is not None else 0, b.hi if b.hi is not None else tmax("usize"),
+                 var=("%len:" + b.var) if b.var else None)
 
     def slice_range(self, pre, b, lo, hi, ctx):
         n = self.blen(b)
@@ -1336,6 +1523,8 @@ class Translator:
             if c is not None:
                 return c
             raise Untranslatable("unknown name " + n)
+        if len(p) >= 2 and p[-2] == "Ordering" and p[-1] in ("Less", "Equal", "Greater"):
+            return V({"Less": "Lt", "Equal": "Eq", "Greater": "Gt"}[p[-1]], ("ord",))
         if p[-1] in ("MAX", "MIN") and p[-2] in INT_BITS:
             return num(tmax(p[-2]) if p[-1] == "MAX" else 0, p[-2])
         if len(p) >= 2:
@@ -1346,10 +1535,9 @@ class Translator:
             return V(str(TAGS[p[1]]), "tag", TAGS[p[1]], TAGS[p[1]])
         if p[0] in ("crate", "self", "super", "raw"):
             return self.path(p[1:], env, ctx, exp)
-        if len(p) == 2:
-            c = self.const(p[1], ctx)
-            if c is not None:
-                return c
+        c = self.const_path(p, ctx)
+        if c is not None:
+            return c
         raise Untranslatable("unknown path " + "::".join(p))
 
     def enum_ctor(self, ename, vname, args, env, ctx):
@@ -1375,8 +1563,20 @@ class Translator:
                 raise Untranslatable("variant %s::%s" % (ename, vname))
         return None
 
+    def const_path(self, p, ctx):
+        """a path in constant position: NAME, module::NAME (lower-case module), uN::MAX; Type::NAME is an associated
+        constant, which is not indexed -> None"""
+        if len(p) >= 2 and p[-1] in ("MAX", "MIN") and p[-2] in INT_BITS:
+            return num(tmax(p[-2]) if p[-1] == "MAX" else 0, p[-2])
+        if len(p) == 1:
+            return self.const(p[0], ctx)
+        if all(x[0].islower() for x in p[:-1]) and not any(x in INT_BITS for x in p[:-1]):
+            return self.const(p[-1], ctx)
+        return None
+
     def const(self, n, ctx):
-        for ix in self.all_idx(ctx.ix):
+        own = [ctx.ix] + [ix for f, ix in self.files.items() if f == "src/raw/mod.rs" and ix is not ctx.ix]
+        for ix in own:
             if n in ix.consts:
                 tyt, et = ix.consts[n]
                 try:
@@ -1624,7 +1824,35 @@ class Translator:
         raise Untranslatable("operator " + op)
 
     def index(self, base, ix, env, ctx):
-        if base[0] == "path" and base[1][-1] in self.tables:
+        if base[0] == "index" and base[1][0] == "path" and base[1][1][-1] in self.ext_tables:
+            tn = base[1][1][-1]
+            dims, ety = self.ext_tables[tn]
+            if len(dims) == 2:
+                p1, j = self.expr(base[2], env, ctx, "usize")
+                p2, i = self.expr(ix, env, ctx, "usize")
+                j, i = self.coerce(j, "usize"), self.coerce(i, "usize")
+                pre = p1 + p2
+                if j.hi >= dims[0]:
+                    p3, j = self.chk("(%s <? %d)" % (j.code, dims[0]), j.code, "usize", j.lo, dims[0] - 1, ctx)
+                    pre += p3
+                if i.hi >= dims[1]:
+                    p3, i = self.chk("(%s <? %d)" % (i.code, dims[1]), i.code, "usize", i.lo, dims[1] - 1, ctx)
+                    pre += p3
+                ctx.ext_used.add(tn)
+                return pre, V("(List.nth (N.to_nat %s) (List.nth (N.to_nat %s) %s []) 0)" % (i.code, j.code, tn), ety, 0, tmax(ety))
+        if base[0] == "path" and base[1][-1] in self.ext_tables and len(self.ext_tables[base[1][-1]][0]) == 1:
+            tn = base[1][-1]
+            dims, ety = self.ext_tables[tn]
+            pre, i = self.expr(ix, env, ctx, "usize")
+            i = self.coerce(i, "usize")
+            if i.hi >= dims[0]:
+                p3, i = self.chk("(%s <? %d)" % (i.code, dims[0]), i.code, "usize", i.lo, dims[0] - 1, ctx)
+                pre += p3
+            ctx.ext_used.add(tn)
+            return pre, V("(List.nth (N.to_nat %s) %s 0)" % (i.code, tn), ety, 0, tmax(ety))
+        if base[0] == "path" and len(base[1]) == 1 and base[1][0] in env:
+            pass
+        elif base[0] == "path" and base[1][-1] in self.tables:
             name, length = self.tables[base[1][-1]]
             pre, i = self.expr(ix, env, ctx, "usize")
             i = self.coerce(i, "usize")
@@ -1647,6 +1875,11 @@ class Translator:
     def call_fn(self, f, argvals, argexprs, env, ctx):
         """call of a translated function; argvals[i] given or None -> translate argexprs[i - offset]"""
         pre, codes = [], []
+        ext = list(getattr(f, "ext", []))
+        for t in ext:
+            ctx.ext_used.add(t)
+        if ext:
+            argvals = [V(t, ("ext", t)) for t in ext] + list(argvals)
         off = len(argvals) - len(argexprs)
         if len(argvals) != len(f.params_rust):
             raise Untranslatable("arity of %s" % f.coqname)
@@ -1716,6 +1949,12 @@ class Translator:
                 return pre, self.cast(self.coerce(v, "u64"), "usize")     # 64-bit target: the identity
             f = self.fn_info(ctx.ix, None, name)
             return self.call_fn(f, [None] * len(args), args, env, ctx)
+        if len(path) == 2 and path[0] in INT_BITS and name == "from_le_bytes" and len(args) == 1:
+            pre, b = self.expr(args[0], env, ctx)
+            n = INT_BITS[path[0]] // 8
+            if b.ty != ("bytes",) or b.lo != n or b.hi != n:
+                raise Untranslatable("from_le_bytes of something that is not exactly %d bytes" % n)
+            return pre, V("(le_lor %s)" % b.code, path[0], 0, tmax(path[0]))
         if len(path) == 2 and path[0] in INT_BITS and name == "from" and len(args) == 1:
             pre, v = self.expr(args[0], env, ctx)
             return pre, self.cast(v, path[0])
@@ -1761,7 +2000,88 @@ class Translator:
         f = min if name == "min" else max
         return pa + pb, V("(N.%s %s %s)" % (name, a.code, b.code), a.ty, f(a.lo, b.lo), f(a.hi, b.hi))
 
+    def cmp_values(self, a, b):
+        """Ord::cmp of two values as a Gallina term of type comparison"""
+        ta, tb = erase(a.ty), erase(b.ty)
+        if a.opt and a.opt[0] == "tuple" and b.opt and b.opt[0] == "tuple" and len(a.opt[1]) == len(b.opt[1]):
+            parts = [self.cmp_values(x, y) for x, y in zip(a.opt[1], b.opt[1])]
+            code = parts[-1]
+            for pc in reversed(parts[:-1]):
+                code = "(match %s with Eq => %s | src_c => src_c end)" % (pc, code)
+            return code
+        if ta == ("bytes",) and tb == ("bytes",):
+            return "(lex_cmp %s %s)" % (a.code, b.code)
+        if is_int(ta) and is_int(tb):
+            a, b = self.unify(a, b)
+            if erase(a.ty) == erase(b.ty):
+                return "(N.compare %s %s)" % (a.code, b.code)
+        if ta == "bool" and tb == "bool":
+            return "(N.compare (if %s then 1 else 0) (if %s then 1 else 0))" % (a.code, b.code)
+        raise Untranslatable("cmp of %s and %s" % (a.ty, b.ty))
+
     def method(self, name, recv, args, env, ctx, exp):
+        if recv == ("path", ["self"]) and ctx.owner and "self" not in env and self.find_fn(ctx.ix, ctx.owner, name)[1] is not None:
+            f = self.get_fn(ctx.ix, ctx.owner, name)
+            rp = [x for x in f.rust_params if x != "self"]
+            if len(rp) != len(args):
+                raise Untranslatable("arity of %s" % name)
+            codes, pre = [], []
+            for g, ct, rt in f.params:
+                key = f.keys.get(g)
+                if key is None:
+                    raise Untranslatable("call of %s: parameter %s" % (name, g))
+                if key.startswith("self."):
+                    if key not in env:
+                        raise Untranslatable("call of %s needs %s" % (name, key))
+                    codes.append(env[key].code)
+                    continue
+                base, _, fld = key.partition(".")
+                a = args[rp.index(base)]
+                if fld:
+                    if not (a[0] == "path" and len(a[1]) == 1 and (a[1][0] + "." + fld) in env):
+                        raise Untranslatable("record argument of %s" % name)
+                    codes.append(env[a[1][0] + "." + fld].code)
+                else:
+                    p2, v = self.expr(a, env, ctx, erase(rt) if not isinstance(erase(rt), tuple) else None)
+                    pre += p2
+                    codes.append(self.coerce(v, rt).code)
+            code = "(%s %s)" % (f.coqname, " ".join(codes))
+            if f.pure:
+                v = self.typed(code, f.rty)
+                if isinstance(f.rty, tuple) and f.rty[0] == "opt" and getattr(f, "always_some", False):
+                    v = v.with_(opt=None)
+                return pre, v
+            t = ctx.fresh("t")
+            return pre + [("bind", t, ("raw", code))], self.typed(t, f.rty)
+        if name in ("cmp", "partial_cmp") and len(args) == 1:
+            pa, a = self.expr(recv, env, ctx)
+            pb, b = self.expr(args[0], env, ctx, erase(a.ty) if a.ty in INT_BITS else None)
+            try:
+                code = self.cmp_values(a, b)
+            except Untranslatable:
+                code = None
+            if code is not None:
+                v = V(code, ("ord",))
+                if name == "cmp":
+                    return pa + pb, v
+                return pa + pb, V("(Some %s)" % code, ("opt", ("ord",)), opt=("some", v))
+        if name in ("reverse", "then", "then_with", "is_lt", "is_le", "is_gt", "is_ge", "is_eq", "is_ne"):
+            pa, a = self.expr(recv, env, ctx)
+            if a.ty == ("ord",):
+                if name == "reverse" and not args:
+                    return pa, V("(CompOpp %s)" % a.code, ("ord",))
+                if name in ("then", "then_with") and len(args) == 1:
+                    e2 = args[0][2] if (name == "then_with" and args[0][0] == "closure" and not args[0][1]) else (args[0] if name == "then" else None)
+                    if e2 is None:
+                        raise Untranslatable("then_with argument")
+                    pb, b = self.expr(e2, env, ctx)
+                    if pb or b.ty != ("ord",):
+                        raise Untranslatable("then_with body")
+                    return pa, V("(match %s with Eq => %s | src_c => src_c end)" % (a.code, b.code), ("ord",))
+                tests = {"is_lt": "Lt => true | _ => false", "is_le": "Gt => false | _ => true", "is_gt": "Gt => true | _ => false",
+                         "is_ge": "Lt => false | _ => true", "is_eq": "Eq => true | _ => false", "is_ne": "Eq => false | _ => true"}
+                if name in tests and not args:
+                    return pa, V("(match %s with %s end)" % (a.code, tests[name]), "bool")
         pre, r = self.expr(recv, env, ctx, exp if name.startswith(("wrapping_", "rotate_", "checked_", "saturating_")) or name in ("min", "max") else None)
         rt = r.ty
         if isinstance(rt, tuple) and rt[0] == "aut":
@@ -1787,6 +2107,10 @@ class Translator:
             if name == "is_empty" and not args:
                 return pre, V("(len %s =? 0)" % r.code, "bool")
             if name in ("iter", "to_owned", "to_vec", "clone", "as_ref", "as_slice", "as_bytes", "into_iter", "copied", "cloned", "borrow", "deref") and not args:
+                return pre, r
+            if name == "try_into" and not args and r.lo is not None and r.lo == r.hi:
+                return pre, r.with_(opt=("tryinto",))       # slice -> [u8; n] of exactly that length: cannot fail
+            if name == "unwrap" and not args and r.opt == ("tryinto",):
                 return pre, r
             if name == "rev" and not args:
                 return pre, r.with_(code="(rev %s)" % r.code, var=None)
@@ -1824,9 +2148,15 @@ class Translator:
                 if r.opt and r.opt[0] == "some":
                     return pre, r.opt[1]
                 t, x = ctx.fresh("t"), ctx.fresh("x")
-                return pre + [("bind", t, ("mopt", r.code, x, ("ret", x), ("panic",)))], V(t, ety, 0, tmax(ety))
+                return pre + [("bind", t, ("mopt", r.code, x, ("ret", x), ("panic",)))], self.typed(t, ety)
             if name in ("map_or", "map") and args and args[-1][0] == "closure" and len(args[-1][1]) == 1 and len(args) == (2 if name == "map_or" else 1):
                 ety = rt[1]
+                if name == "map" and r.opt and r.opt[0] == "some":
+                    e2 = dict(env)
+                    e2[args[-1][1][0]] = r.opt[1]
+                    pb, bv = self.expr(args[-1][2], e2, ctx)
+                    if not pb:
+                        return pre, V("(Some %s)" % bv.code, ("opt", erase(bv.ty)), opt=("some", bv))
                 x = ctx.fresh(args[-1][1][0])
                 e2 = dict(env)
                 e2[args[-1][1][0]] = self.typed(x, ety).with_(var=args[-1][1][0])
